@@ -188,7 +188,7 @@ def parse_floats(out):
 def gen_float_rows(rng, n):
     rows = []
     for i in range(n):
-        kind = ("sphere", "dipole", "sphere_as_dipole", "cyl")[i % 4]
+        kind = ("sphere", "dipole", "sphere_as_dipole", "cyl", "fullseg")[i % 5]
         f = rng.choice("BHJM")
         o = [rng.uniform(-3, 3) for _ in range(3)]
         p = [rng.uniform(-2, 2) for _ in range(3)]
@@ -204,11 +204,23 @@ def gen_float_rows(rng, n):
             if rng.random() < 0.1:
                 row["o"] = [0.0, 0.0, 0.0]      # the r == 0 branch: moment / 0.0 and nan_to_num
                 row["p"] = [rng.choice([0.0, 1.5, -2.0]) for _ in range(3)]
-        else:
+        elif kind == "cyl":
             row["d"] = rng.uniform(0.2, 4)
             row["h"] = rng.uniform(0.2, 4)
             row["field"] = rng.choice("JM")
+        else:
+            # a full-angle (possibly hollow) segment through the shortcut, J and M only (modelled branches)
+            r2 = rng.uniform(0.3, 3)
+            row["dim"] = [rng.choice([0.0, rng.uniform(0.1, 0.9) * r2]), r2, rng.uniform(0.2, 4), 0.0, 360.0]
+            row["field"] = rng.choice("JM")
+            if rng.random() < 0.3:      # on / next to the plane of a face
+                row["o"][2] = rng.choice([-1, 1]) * row["dim"][2] / 2 * rng.choice([1.0, 1 + 2.3e-16, 1 - 1.2e-16])
         rows.append(row)
+    # the witness row of C13_full_segment_J_binary64_refuted (known finding): model and implementation must agree on it
+    rows.append({"kind": "fullseg", "field": "J", "o": [float.fromhex("0x1.c5f52a2fdcc89p-3"), float.fromhex("0x1.617fa3e939600p-2"),
+                                                        float.fromhex("-0x1.dc28f5c28f5c4p-1")], "p": [0.0, 0.0, 1.0],
+                 "dim": [float.fromhex("0x1.a4189374bc6a8p-1"), float.fromhex("0x1.38d4fdf3b645ap+0"),
+                         float.fromhex("0x1.dc28f5c28f5c3p+0"), 0.0, 360.0]})
     return rows
 
 
@@ -225,6 +237,8 @@ def impl_float_row(row):
             # the Dipole object equivalent to the Sphere: moment = M * V
             d = abs(row["d"])
             return BHJM_dipole(f, o, p * (np.pi * d ** 3 / 6) / S.MU0)[0]
+        if row["kind"] == "fullseg":
+            return SEGMOD.BHJM_cylinder_segment_internal(f, o, p, np.array([row["dim"]], dtype=float))[0]
         return BHJM_magnet_cylinder(f, o, np.array([[row["d"], row["h"]]]), p)[0]
 
 
@@ -236,6 +250,8 @@ def c_float_row(row):
         return f"run_dipole {f} {mu0} {fv(row['o'])} {fv(row['p'])}"
     if row["kind"] == "sphere_as_dipole":
         return f"run_sphere_as_dipole {f} {mu0} {fv(row['o'])} {fl(row['d'])} {fv(row['p'])}"
+    if row["kind"] == "fullseg":
+        return f"run_full_segment_JM {f} {mu0} {fv(row['o'])} " + " ".join(fl(x) for x in row["dim"]) + f" {fv(row['p'])}"
     return f"run_cyl_JM {f} {mu0} {fv(row['o'])} {fl(row['d'])} {fl(row['h'])} {fv(row['p'])}"
 
 
@@ -373,11 +389,11 @@ def mesh_oracle(ctx, mk):
 
 
 # ------------------------------------------------------------------ search
-QUICK_N = {"cuboid_partition": 150, "cylinder_partition": 110, "cuboid_repr": 150, "sphere_dipole": 60,
-           "polyline_circle": 40, "mesh_convert": 100, "mixed_partition": 100}
+QUICK_N = {"cuboid_partition": 300, "cylinder_partition": 250, "cuboid_repr": 300, "sphere_dipole": 100,
+           "polyline_circle": 60, "mesh_convert": 200, "mixed_partition": 200}
 
 
-THOROUGH_FACTOR = 12
+THOROUGH_FACTOR = 8
 
 
 def load_corpus():
@@ -413,7 +429,7 @@ def check_case(ctx, c, origin):
         return
     # shrink only the first few failures of each (unshrunk) signature: a broad defect fails on most cases
     fl = max(fls, key=lambda x: (x["field"] in "BH", x["rel"]))
-    sig0 = S.signature(c, fl)
+    sig0 = S.signature(c, fl, {x["field"] for x in fls if x["obs_index"] == fl["obs_index"] and x["clause"] == fl["clause"]})
     seen = ctx.extra.setdefault("_c13_seen", {})
     if sig0 in seen or len(seen) >= 12:
         sig = seen.get(sig0, sig0)
@@ -472,7 +488,8 @@ def replay(ctx, obj):
             print("replay: property holds on this case")
             return 0
         for f in fls:
-            print(f"replay: FAILS [{S.signature(rp['case'], f)}] {f['detail']}")
+            failed = {x["field"] for x in fls if x["obs_index"] == f["obs_index"] and x["clause"] == f["clause"]}
+            print(f"replay: FAILS [{S.signature(rp['case'], f, failed)}] {f['detail']}")
         print(f"VIOLATION property=C13 replay={obj.get('how_to_rerun', '').split()[-1] or 'given'}")
         return 1
     if rp.get("kind") == "mesh":
